@@ -17,6 +17,22 @@ import tempfile
 import traceback
 
 
+class HarnessError(Exception):
+    """the harness's own call of the public API does not fit this tree (renamed / removed entry point, changed signature):
+    nothing was learned about the code"""
+
+
+def _check_harness(e):
+    if isinstance(e, HarnessError):
+        raise e
+    if isinstance(e, (AttributeError, TypeError, ImportError, NameError)):
+        tb, last = e.__traceback__, None
+        while tb is not None:
+            last, tb = tb, tb.tb_next
+        if last is not None and os.path.abspath(last.tb_frame.f_code.co_filename) == os.path.abspath(__file__):
+            raise HarnessError(f"{type(e).__name__}: {e}") from e
+
+
 def _content_file(tmp, prefix, text, suffix):
     """content-addressed file: the same text is the same path (and is written once) within one process,
     as it would be for a user who passes the same macro / rule / input file to several operations"""
@@ -49,6 +65,7 @@ def run_default(job, tmp):
     try:
         rule = Yaml2Regex(rp, macros_from_terminal=mfiles or None).produce_regex()
     except Exception as e:
+        _check_harness(e)
         return {"error": f"{type(e).__name__}: {e}", "stage": "compile"}
     out["regex"] = rule
     if job.get("kind") == "compile" or job.get("insts") is None:
@@ -67,6 +84,7 @@ def run_default(job, tmp):
         out["addr_list"] = list(obs.addr_list)
         out["spans"] = [list(m.span()) for m in regex.finditer(rule, obs.stringified_instructions, timeout=60)]
     except Exception as e:
+        _check_harness(e)
         out["error"] = f"{type(e).__name__}: {e}"
         out["stage"] = "match"
         out["trace"] = traceback.format_exc(limit=4)
@@ -91,6 +109,7 @@ def run_mop(job, tmp, tag=""):
             r = MasterOfPuppets(cfg).perform_matching()
             res.append({"mode": [rm, sm, oa], "result": r})
         except Exception as e:
+            _check_harness(e)
             res.append({"mode": [rm, sm, oa], "error": f"{type(e).__name__}: {e}"})
     return {"results": res}
 
@@ -107,6 +126,7 @@ def run_parse(job, tmp):
             else:
                 out.append({"other": type(r).__name__})
         except Exception as e:
+            _check_harness(e)
             out.append({"error": f"{type(e).__name__}: {e}"})
     res = {"lines": out}
     if job.get("stream"):
@@ -127,6 +147,7 @@ def run_resolver(job, tmp):
             r = MacroArgsResolver().resolve(macro=m, tree=copy.deepcopy(call))
             out.append({"pattern": r.get("pattern")})
         except Exception as e:
+            _check_harness(e)
             out.append({"error": f"{type(e).__name__}: {e}"})
     return {"results": out}
 
@@ -146,6 +167,7 @@ def run_call(job, tmp):
             r = repr(r)
         return {"result": r}
     except Exception as e:
+        _check_harness(e)
         return {"error": f"{type(e).__name__}: {e}"}
 
 
@@ -164,7 +186,15 @@ def run_one(job, tmp):
     return run_default(job, tmp)
 
 
+def _alpha_hook():
+    if os.environ.get("JASM_ALPHA"):
+        sys.path.insert(0, os.path.dirname(os.path.dirname(os.path.abspath(__file__))))
+        from vf import alpha
+        alpha.hook_from_env()
+
+
 def main():
+    _alpha_hook()
     import logging
     logging.disable(logging.CRITICAL)
     jobs = json.load(sys.stdin)
@@ -176,7 +206,15 @@ def main():
         with tempfile.TemporaryDirectory() as tmp:
             try:
                 res.append(run_one(j, tmp))
+            except HarnessError as e:
+                sys.stderr.write("HARNESS-ERROR " + str(e))
+                sys.exit(4)
             except Exception as e:
+                try:
+                    _check_harness(e)
+                except HarnessError as he:
+                    sys.stderr.write("HARNESS-ERROR " + str(he))
+                    sys.exit(4)
                 res.append({"error": f"runner: {type(e).__name__}: {e}", "trace": traceback.format_exc(limit=4)})
     json.dump(res[0] if single else res, sys.stdout)
 
